@@ -93,8 +93,9 @@ def shard(a):
         ys = [' ' + v + ' ']
         if seps and len(v) > 2:
             ys.append(v[:1] + seps[0] + v[1:len(v) // 2] + seps[-1] + v[len(v) // 2:])
-        if pr['lower']:
-            ys.append(v.lower())
+        if pr['lower'] or any(c.isalpha() for c in v):
+            ys.append(v.lower())  # whether or not the probe of this tree says lower case is accepted: compact() decides
+            ys.append(v[:-1] + v[-1:].lower())
         # separators that belong to the number written in another style: all of them, only the first, only the last
         sp = [i for i, c in enumerate(v) if c in '-:./ ']
         for alt in ('-', ':', '.', ' ') if sp and len(v) <= 40 else ():
